@@ -604,7 +604,40 @@ func (x *c06) entryProvenance(entryLoad ssa.Value) {
 			return isLoad && a == ssa.Value(pteP)
 		})
 		fromWalk := pteP != nil && strip(st.Val) == ssa.Value(pteP) && len(m.closureArgOfAny(x.pfh, x.walk, fn)) > 0
-		if lastLevel && present && fromWalk {
+		// or: the most recent level's pte, kept while every level is present - the
+		// walker records pte on every present level, records nil and stops the walk
+		// (returns false) on a level that is not present, and otherwise goes on
+		// (returns true): a non-nil entry after the walk is the last level's
+		trail := false
+		if present && fromWalk && !lastLevel {
+			trail = true
+			sn := g.Idx[st]
+			isNilStore := func(k int) bool {
+				s2, ok := g.Ins[k].(*ssa.Store)
+				if !ok || !isNilConst(s2.Val) {
+					return false
+				}
+				c2, ok := cellOf(s2.Addr)
+				return ok && c2 == cell
+			}
+			isPteStore := func(k int) bool { return k == sn }
+			for _, rc := range g.ReturnCases() {
+				if len(rc.Vals) != 1 {
+					trail = false
+					continue
+				}
+				b, isC := constBool(rc.Vals[0])
+				switch {
+				case !isC:
+					trail = false
+				case b && !g.CaseMustPassBefore(rc, isPteStore):
+					trail = false // goes on without recording this level
+				case !b && !g.CaseMustPassBefore(rc, isNilStore):
+					trail = false // stops and leaves an earlier level's entry behind
+				}
+			}
+		}
+		if (lastLevel || trail) && present && fromWalk {
 			good++
 		} else {
 			c.fail("C06.R4", key, "the page entry is recorded without the tests pteLevel == pageLevels-1 and HasFlags(FlagPresent) on the walker's pte", m.pos(st.Pos()))
